@@ -21,7 +21,7 @@ class save_errno_only(Contract):
     name = 'save_errno_only'
 
     def frame(self, c):
-        return Frame(ghost=['cffi_saved_errno'])
+        return Frame(ghost=['cffi_saved_errno'], trace=[])
 
     def post(self, c):
         return [('the saved errno becomes the C errno', saved(c, c.new) == errno_of(c, c.old))]
@@ -32,7 +32,7 @@ class restore_errno_only(Contract):
     name = 'restore_errno_only'
 
     def frame(self, c):
-        return Frame(raw=[(c.ex.global_addr('errno@thread'), 4)])
+        return Frame(raw=[(c.ex.global_addr('errno@thread'), 4)], trace=[])
 
     def post(self, c):
         return [('the C errno becomes the saved errno', errno_of(c, c.new) == saved(c, c.old))]
